@@ -114,6 +114,9 @@ def _shard_entry(args: tuple) -> dict:
 
 
 def _shard_proc(conn, job) -> None:
+    from pestverif import budget
+
+    budget.die_with_parent()
     try:
         conn.send(_shard_entry(job))
     finally:
@@ -164,6 +167,9 @@ def run_jobs(jobs: list, nproc: int, tier: str = "quick") -> list:
 
 
 def _child_call(conn, prop: str, fn: str, arg: object) -> None:
+    from pestverif import budget
+
+    budget.die_with_parent()
     try:
         mod = importlib.import_module(f"pestverif.props.{prop.lower()}")
         conn.send(("ok", getattr(mod, fn)(arg)))
